@@ -39,6 +39,10 @@ pub struct PosCtx {
     pub total_reads: u64,
     pub iter_marks: Vec<u64>,
     pub total_nodes: u64,
+    /// the positions at ply `depth` (the horizon), enumerated only when an entry is found
+    /// that is not in `tree`; key_seed -> (hash -> index)
+    pub leaves: Option<Vec<Board>>,
+    pub leaf_maps: HashMap<u64, Rc<HashMap<u64, usize>>>,
 }
 
 thread_local! {
@@ -216,6 +220,8 @@ pub fn prepare_pos(bench: &mut Bench, fen: &str, depth: u8) -> Result<(), RefErr
         total_reads,
         iter_marks: vec![],
         total_nodes,
+        leaves: None,
+        leaf_maps: HashMap::new(),
     });
     Ok(())
 }
@@ -242,6 +248,38 @@ pub fn hash_map_for(bench: &mut Bench, key_seed: u64) -> Rc<HashMap<u64, usize>>
     m
 }
 
+/// hash -> index into the horizon positions (ply == depth), built on first use.
+pub fn leaf_map_for(bench: &mut Bench, key_seed: u64) -> Rc<HashMap<u64, usize>> {
+    if bench.pos.as_ref().unwrap().leaves.is_none() {
+        let (board, depth) = {
+            let p = bench.pos.as_ref().unwrap();
+            (p.board, p.depth)
+        };
+        let mut all = vec![];
+        enumerate_tree(&bench.reference.gen, &board, depth, &mut all, 0);
+        let leaves: Vec<Board> = all.into_iter().filter(|(_, ply)| *ply == depth).map(|(b, _)| b).collect();
+        bench.pos.as_mut().unwrap().leaves = Some(leaves);
+    }
+    if let Some(m) = bench.pos.as_ref().unwrap().leaf_maps.get(&key_seed) {
+        return m.clone();
+    }
+    let st = SimState::new(key_seed, 0);
+    let sess = Session::new(st);
+    sess.fresh(&mut bench.searcher, false);
+    let mut m = HashMap::new();
+    for (i, b) in bench.pos.as_ref().unwrap().leaves.as_ref().unwrap().iter().enumerate() {
+        m.entry(bench.searcher.verif_hash(b)).or_insert(i);
+    }
+    drop(sess);
+    let m = Rc::new(m);
+    let pos = bench.pos.as_mut().unwrap();
+    if pos.leaf_maps.len() > 8 {
+        pos.leaf_maps.clear();
+    }
+    pos.leaf_maps.insert(key_seed, m.clone());
+    m
+}
+
 pub fn bound_name(b: Bounds) -> &'static str {
     match b {
         Bounds::Exact => "Exact",
@@ -255,18 +293,33 @@ pub fn audit_tt(
     bench: &mut Bench,
     entries: &[Entry],
     hmap: &HashMap<u64, usize>,
+    key_seed: u64,
+    unauditable: &mut u64,
 ) -> Result<Option<String>, RefError> {
     for e in entries {
-        let Some(&idx) = hmap.get(&e.hash_key) else {
-            return Ok(Some(format!(
-                "cached entry for a position outside the search tree: key={:016x} depth={} eval={} {}",
-                e.hash_key,
-                e.depth,
-                e.eval,
-                bound_name(e.bounds)
-            )));
+        let (q, ply) = match hmap.get(&e.hash_key) {
+            Some(&idx) => bench.pos.as_ref().unwrap().tree[idx],
+            None => {
+                // not an interior node: a horizon position (an engine may cache those too),
+                // or something beyond it, which this audit cannot judge and does not flag
+                let lm = leaf_map_for(bench, key_seed);
+                match lm.get(&e.hash_key) {
+                    Some(&li) => {
+                        let p = bench.pos.as_ref().unwrap();
+                        (p.leaves.as_ref().unwrap()[li], p.depth)
+                    }
+                    None => {
+                        *unauditable += 1;
+                        continue;
+                    }
+                }
+            }
         };
-        let (q, ply) = bench.pos.as_ref().unwrap().tree[idx];
+        if ply as u32 + e.depth as u32 > bench.pos.as_ref().unwrap().depth as u32 {
+            // a claim deeper than anything the reference was sized for
+            *unauditable += 1;
+            continue;
+        }
         let m = bench.reference.value(&q, e.depth)?;
         let v = norm(e.eval);
         let ok = match e.bounds {
